@@ -167,7 +167,8 @@ func VerifC34_maxFrameSizeSetting() {
 // VerifC34_conn: the same oracle, driven through the serve loop's own step functions on a hand-built
 // serverConn with two response streams, for a history of K events:
 //   handler output arriving (writeFrame of a DATA frame), WINDOW_UPDATE (stream / connection),
-//   SETTINGS_INITIAL_WINDOW_SIZE, SETTINGS_MAX_FRAME_SIZE, RST_STREAM from the client.
+//   RST_STREAM from the client, SETTINGS_INITIAL_WINDOW_SIZE, SETTINGS_MAX_FRAME_SIZE
+//   (in this order: the parameter EVENTS=n restricts a run to the first n kinds).
 // After every event the harness plays the write goroutine: it takes what startFrameWrite put on
 // writeFrameCh, checks it against the ghost client and reports back through wroteFrame.
 
@@ -286,7 +287,7 @@ func VerifC34_conn() {
 					}
 				}
 			}
-		case 2: // SETTINGS_INITIAL_WINDOW_SIZE
+		case 3: // SETTINGS_INITIAL_WINDOW_SIZE
 			val := vrt.U32("newInitialWindow")
 			vrt.Assume(val <= 1<<31-1)
 			old := int64(sc.initialWindowSize)
@@ -302,7 +303,7 @@ func VerifC34_conn() {
 			if err != nil {
 				dead = true // connection error
 			}
-		case 3: // RST_STREAM from the client
+		case 2: // RST_STREAM from the client
 			f := &RSTStreamFrame{FrameHeader: FrameHeader{valid: true, Type: FrameRSTStream, Length: 4, StreamID: st.id}, ErrCode: ErrCodeCancel}
 			sc.processResetStream(f)
 			reset[s] = true
